@@ -212,7 +212,10 @@ class ListField(Field):
             return []
 
         if isinstance(self.field, Schema) or isconfigtype(self.field):
-            return [item.to_tree() for item in value]
+            options = getattr(cfg, "_tree_options", None)
+            if not isinstance(options, dict):
+                options = {}
+            return [item.to_tree(**options) for item in value]
         if isinstance(self.field, Field):
             return [self.field.to_basic(cfg, item) for item in value]
         return list(value)
